@@ -237,6 +237,15 @@ class ValueSpecBase(ValueSpec):
       raise TypeError(f'{self!r} cannot extend {base!r}: '
                       f'None is not allowed in base spec.')
     self._extend(base)  # pytype: disable=wrong-arg-types  # always-use-return-annotations
+
+    # The default value shall remain acceptable under the narrowed constraints.
+    if MISSING_VALUE != self._default and self._default is not None:
+      try:
+        self._validate(utils.KeyPath(), self._default)
+      except (TypeError, ValueError) as e:
+        raise TypeError(
+            f'{self!r} cannot extend {base!r}: the default value '
+            f'{self._default!r} is not acceptable after extension.') from e
     return self
 
   def _extend(self, base: ValueSpec) -> None:
